@@ -90,6 +90,14 @@ pub fn run_crash(prop: &str, seed: u64, index: usize, tier: Tier) -> RunReport {
     rep.digest = d.digest.0;
     rep.probes = d.probes.clone();
     rep.states.push(state_signature(&d));
+    if prop == "C04" && !d.conformance_ok() {
+        // lenient driver: the model-independent monitor kept running after the divergence
+        if let Some(f) = d.first_failure("C04") {
+            let mut c = case.clone();
+            c.ops.truncate(f.op_index + 1);
+            rep.found.push(Found { prop: prop.to_string(), clause: f.clause.clone(), detail: f.detail.clone(), case: c, fault: Fault::None });
+        }
+    }
     if !d.conformance_ok() {
         rep.count("histories_skipped_conformance_broken", 1);
         rep.evaluations = 1;
